@@ -5,6 +5,7 @@
 #include <string>
 
 #include "c12.h"
+#include "c14a.h"
 #include "conc.h"
 #include "engine.h"
 
@@ -15,6 +16,7 @@ struct CaseBox {
   std::string property;
   ConcCase conc;
   C12Case c12;
+  C14aCase c14a;
   J generic;              // engines that keep their case as JSON
 };
 
